@@ -88,7 +88,7 @@ PROPS = {
     },
     "C04": {
         "module": "ZenonVerif.Props.C04",
-        "streams": [S("ledger", 60, 3000)],
+        "streams": [S("ledger", 60, 3000), S("verify", 20, 400)],
         "rule": LEDGER_RULE,
         "partial": "state-level theorems about the current chain of one node: reorganisation, replacement of unconfirmed "
                    "blocks and restart (DESIGN C04-T5) are not modelled — they are covered by the stream's monitors only; "
